@@ -198,7 +198,7 @@ def selftest_bytes(rng, passing):
         if passing:
             d = rng.choice([thr + 1, thr + 2, 2000, 4095])
         else:
-            d = rng.choice([thr, thr - 1, 0, -5, thr + 1])
+            d = rng.choice([thr, thr - 1, 0, -5, thr + 1, -(thr + 1), -2000, -4095, thr + 1])   # inverted responses included
         n = rng.randint(-2048, 2047 - max(d, 0)) if d >= 0 else rng.randint(-2048 - d, 2047)
         n = max(-2048, min(2047, n))
         p = max(-2048, min(2047, n + d))
